@@ -42,18 +42,24 @@ struct set_node *vp_conf_alloc(size_t size, int type)
 }
 
 #if defined(VP_MODEL_LONGJMP) && !defined(REPLAY)
+#ifndef VP_NO_READ_TAIL
+#include "vp_conf_read_tail.h"
+#endif
 int vp_parse_error;                 /* error code of the modelled longjmp, 0 if none */
 void vp_on_parse_error(int code);   /* harness: obligations at the point of the jump */
 void vp_longjmp(void *env, int code)
 {
     struct conf_parse *parse = ENCLOSING_STRUCT(env, struct conf_parse, env);
     vp_parse_error = code;
-    vp_on_parse_error(code);
 #ifndef VP_NO_READ_TAIL
-    /* tail of conf_read() */
-    set_clear(&parse->root.contents, 0);
-    xfree((void *)parse->data);
+    /* the rest of conf_read(), taken from the current source: the switch on the jump code
+     * (its error branch) and the statements after it */
+    vp_conf_read_after_jump(parse, "f", code);
+#else
+    (void)parse;
 #endif
+    /* conf_read() has now returned `code`: the harness' obligations for a failed load */
+    vp_on_parse_error(code);
     __CPROVER_assume(0);
 }
 #endif
